@@ -92,10 +92,23 @@ class DslProp(PropBase):
             from y0.dsl import Fraction, P, Sum
             names = rng.sample(gen.names, rng.randint(2, 4))
             k = rng.randint(1, len(names) - 1)
-            num = P(*[V(n) for n in names])
-            sub = names[:k] if rng.random() < 0.8 else names[:k - 1] + [rng.choice([n for n in gen.names if n not in names])]
+            from y0.dsl import PP, Variable
+            def build(ns):  # plain or population-tagged joint: contraction is only valid within one population
+                r = rng.random()
+                if not gen.rich or r < 0.55:
+                    return P(*[V(n) for n in ns])
+                return PP[Variable("S" if r < 0.8 else "T")](*[V(n) for n in ns])
+            num = build(names)
+            r = rng.random()
+            if r < 0.1:
+                sub = list(names); rng.shuffle(sub)      # the same children below the bar
+            else:
+                sub = names[:k] if r < 0.8 else names[:k - 1] + [rng.choice([n for n in gen.names if n not in names])]
             sub = sub or names[:1]
-            e = Fraction(num, P(*[V(n) for n in sub]))
+            den = build(sub)
+            if rng.random() < 0.5 and type(den) is not type(num):
+                den = num._new(den.distribution)
+            e = Fraction(num, den)
             if kind == "recursive_contract":
                 r = rng.random()
                 if r < 0.4:
